@@ -32,7 +32,7 @@ def normalised(ck):
     split off the anchored iostream functions are inlined again."""
     from .x_inline import inline_repo
 
-    ck.repo = inline_repo(ck.repo, [IO], KEEP_IOSTREAM)
+    ck.repo = inline_repo(ck.repo, [IO], KEEP_IOSTREAM, tail_returns=True, join_index=True)
     return ck.repo
 
 
